@@ -67,7 +67,7 @@ Definition draw_value (r : rnd) (s : stream) : value * stream :=
       let res := mn + randrange 0 days d in (if stamp then VFlt (js_stamp res) else VDate res, s2)
   | RValue v _ => (v, s)
   | RSample vals counts _ => let (d, s2) := next s in (sample vals counts d, s2)
-  | RText _ => let (d, s2) := next s in (VStr (dt d), s2)
+  | RText arg _ => let (d, s2) := next s in (VStr (arg ++ dt d), s2)
   end.
 
 Lemma gen_eq r s :
@@ -95,7 +95,7 @@ Qed.
 
 Lemma draw_produces r raw : rnd_wf r -> in_range r raw -> produces (draw_value r) raw.
 Proof.
-  destruct r as [lo hi p none | lo hi p none | mn days stamp p | v p | vals counts p | p];
+  destruct r as [lo hi p none | lo hi p none | mn days stamp p | v p | vals counts p | arg p];
     cbn [rnd_wf in_range draw_value]; intros Hwf Hin.
   - destruct Hin as [z [-> Hz]]. exists [D (z - lo) 1 []]. intros s. cbn [app next draw_value].
     unfold randrange. cbn [dn]. rewrite Z.mod_small by lia. do 2 f_equal. lia.
@@ -212,9 +212,20 @@ Proof.
 Qed.
 
 (* ------------------------------------------------------------ the theorem *)
+Lemma def_wf2_wf Df : def_wf2 Df -> def_wf Df.
+Proof.
+  assert (S : forall sp, spec_wf2 sp -> spec_wf sp).
+  { intros sp H. unfold spec_wf2, spec_wf in *. eapply Forall_impl; [|exact H].
+    intros [k [v|r]]; cbn [snd sval_wf sval_wf2]; [trivial | intros [Hr _]; exact Hr]. }
+  intros [H1 H2]. split.
+  - eapply Forall_impl; [|exact H1]. intros e. apply S.
+  - eapply Forall_impl; [|exact H2]. intros e He. eapply Forall_impl; [|exact He]. intros c. apply S.
+Qed.
+
 Section Complete.
   Variable Df : sdef.
   Hypothesis Hwf : def_wf2 Df.
+  Hypothesis Hcw : counts_wf Df.
 
   Lemma mspec_wf2 p cs e : lookup p (d_rels Df) = Some cs -> In e cs -> spec_wf2 (mspec Df e).
   Proof.
@@ -228,6 +239,8 @@ Section Complete.
     destruct c as [[v|r]|]; cbn [count_ok can_be_pos]; intros H Hn; try reflexivity.
     subst n. apply Nat.ltb_lt. exact Hn.
   Qed.
+
+  Let Hwf1 : def_wf Df := def_wf2_wf Df Hwf.
 
   Theorem make_tree_complete (rk : text -> nat) : rank_ok Df rk ->
     forall fuel ptype path f, (rk ptype < fuel)%nat -> Conf Df ptype path f ->
@@ -253,6 +266,7 @@ Section Complete.
                                        (fac_of (lookup K_factory (mspec Df e))) (strip (mspec Df e)) (dotted path))
                                    (seq 1 cnt) s1) _ n).
       - intros s. unfold make_group. fold (mspec Df e).
+        rewrite (count_err_false _ s (fun sv E => lookup_wf _ _ _ (mspec_wf Df Hwf1 _ _ _ Hl Hin) E) (Hcw _ _ _ Hl Hin)).
         destruct (resolve_count (lookup K_count (mspec Df e)) s) as [cnt s1]. reflexivity.
       - apply resolve_count_produces; [|exact Hc].
         intros sv E. apply lookup_In in E. unfold spec_wf2 in Hmw. rewrite Forall_forall in Hmw. exact (Hmw _ E).
@@ -288,25 +302,15 @@ Section Complete.
 End Complete.
 
 (* ------------------------------------------------------------------------ *)
-Lemma def_wf2_wf Df : def_wf2 Df -> def_wf Df.
-Proof.
-  assert (S : forall sp, spec_wf2 sp -> spec_wf sp).
-  { intros sp H. unfold spec_wf2, spec_wf in *. eapply Forall_impl; [|exact H].
-    intros [k [v|r]]; cbn [snd sval_wf sval_wf2]; [trivial | intros [Hr _]; exact Hr]. }
-  intros [H1 H2]. split.
-  - eapply Forall_impl; [|exact H1]. intros e. apply S.
-  - eapply Forall_impl; [|exact H2]. intros e He. eapply Forall_impl; [|exact He]. intros c. apply S.
-Qed.
-
 (* EXACTNESS: the conforming forests are exactly the possible results *)
-Theorem conf_exact Df (rk : text -> nat) : def_wf2 Df -> rank_ok Df rk ->
+Theorem conf_exact Df (rk : text -> nat) : def_wf2 Df -> counts_wf Df -> rank_ok Df rk ->
   forall fuel ptype path f, (rk ptype < fuel)%nat -> mem ptype (d_rels Df) = true ->
     (Conf Df ptype path f <-> exists s, fst (make_tree Df fuel ptype (dotted path) s) = f).
 Proof.
-  intros Hwf Hrk fuel ptype path f Hfuel Hmem. split.
-  - intros HC. destruct (make_tree_complete Df Hwf rk Hrk fuel ptype path f Hfuel HC) as [ds H].
+  intros Hwf Hcw Hrk fuel ptype path f Hfuel Hmem. split.
+  - intros HC. destruct (make_tree_complete Df Hwf Hcw rk Hrk fuel ptype path f Hfuel HC) as [ds H].
     exists (ds ++ []). rewrite H. reflexivity.
-  - intros [s <-]. apply (make_tree_conf Df (def_wf2_wf Df Hwf) rk Hrk); assumption.
+  - intros [s <-]. apply (make_tree_conf Df (def_wf2_wf Df Hwf) Hcw rk Hrk); assumption.
 Qed.
 
 (* decidable form of def_wf2 *)
